@@ -10,7 +10,10 @@ use quote::quote;
 use regex::Regex;
 use trustfall::{Schema, SchemaAdapter, TryIntoStruct};
 
-use crate::util::{escaped_rust_name, parse_import, to_lower_snake_case, upper_case_variant_name};
+use crate::util::{
+    escaped_rust_name, parse_import, to_lower_snake_case, upper_case_variant_name,
+    variant_conversion_fn_name,
+};
 
 use super::{
     adapter_creator::make_adapter_file, edges_creator::make_edges_file,
@@ -426,14 +429,25 @@ fn ensure_no_vertex_name_conflicts(querying_schema: &Schema, adapter: Arc<Schema
     rows.sort_unstable();
 
     let mut uniq: HashMap<String, String> = HashMap::new();
+    let mut uniq_conversion_fns: HashMap<String, String> = HashMap::new();
 
     for row in rows {
         let name = row.name.clone();
         // we normalize to lower snake case here, however in vertex name we capitalize this name instead
         // it doesn't really matter though because the important one is just to normalize to the same capitalization scheme
         let converted = escaped_rust_name(to_lower_snake_case(&name));
-        let v = uniq.insert(converted, name);
+        let v = uniq.insert(converted, name.clone());
         if let Some(v) = v {
+            panic!(
+                "cannot generate adapter for a schema containing both '{}' and '{}' vertices, consider renaming one of them",
+                v, row.name
+            );
+        }
+
+        // The vertex enum's derived `as_<variant>()` conversion methods use a different snake-casing
+        // (an underscore before every capital letter), under which e.g. `UserID` and `UserI_D` collide.
+        let conversion_fn = variant_conversion_fn_name(&upper_case_variant_name(&name));
+        if let Some(v) = uniq_conversion_fns.insert(conversion_fn, name) {
             panic!(
                 "cannot generate adapter for a schema containing both '{}' and '{}' vertices, consider renaming one of them",
                 v, row.name
